@@ -68,6 +68,29 @@ def ir_eval(e, env: list[int]) -> int:
     raise TranslateError('bad IR')
 
 
+def ir_to_py(e) -> str:
+    """The IR as a Python expression over the list `v` (same semantics as ir_eval; compiled by the check for speed)."""
+    k = e[0]
+    if k == 'var':
+        return f'v[{e[1]}]'
+    if k == 'const':
+        return str(e[1])
+    if k in ('and', 'or'):
+        return f'({ir_to_py(e[1])} {"&" if k == "and" else "|"} {ir_to_py(e[2])})'
+    if k in ('shl', 'shr'):
+        return f'({ir_to_py(e[1])} {"<<" if k == "shl" else ">>"} {e[2]})'
+    if k == 'test':
+        return f'({ir_to_py(e[3])} if ({ir_to_py(e[1])} >> {e[2]}) & 1 else {ir_to_py(e[4])})'
+    if k == 'avg3':
+        return f'(({ir_to_py(e[1])} + {ir_to_py(e[2])} + {ir_to_py(e[3])}) // 3)'
+    raise TranslateError('bad IR')
+
+
+def ir_compile(es):
+    """tuple of IR expressions -> function(list of ints) -> tuple of ints."""
+    return eval('lambda v: (' + ', '.join(ir_to_py(e) for e in es) + ',)', {'__builtins__': {}})
+
+
 # ------------------------------------------------------------------------------------------------ codecs
 class _Mod:
     def __init__(self, tree: ast.Module) -> None:
